@@ -30,12 +30,39 @@ CHECKS = {
          "Narrow readings: 802.1Q priority bits zero, IPv4 IHL 5, TCP reserved bits zero, at most one record of each supported type per sample.", "7 C07"),
  "C08": ("exploration", "deterministic simulation of the whole pipeline; oracle = independent NetFlow v5 model incl. rejection rules",
          "All headers x counts 0..40 x record contents x datagram lengths (short, exact, trailing octets): exactly the announced flows, every field equal, dotted addresses; otherwise nothing published.", "", "7 C08"),
- "C12": ("exploration", "deterministic simulation: seeded interleavings of receive loops, N workers and queue consumers with poisoning deterministic buffer pool; oracle = byte equality with isolated real decode",
+ "C12": ("exploration", "deterministic simulation: seeded interleavings of receive loops, N workers and queue consumers with poisoning deterministic buffer pool; oracle = byte equality with isolated real decode; plus a -race build batch on the same schedules",
          "Whole pipeline under the seeded scheduler (1..8 workers, channel capacities 1..1000, pool reuse LIFO/FIFO/random with poison on Put, bounded stalls, duplicates, same-instant bursts, mirror on/off): each published payload must be byte-for-byte what the real decoder produces for that datagram alone with a private cache.",
          "Real decoder used as the isolated reference, so decoder defects do not leak into this verdict.", "7 C12"),
  "C13": ("exploration", "deterministic simulation: accounting model over the network's delivery record; counters read through the real /flow handler at quiescent points; published multiset",
          "UDPCount equals datagrams read from the simulated socket (exact, monotone) at every quiescent point, DecodedCount lies in the model's interval, exactly one message per datagram that yields records, none twice, none for datagrams not received; mixed decodable / template-only / unknown-template / malformed traffic, any worker count and interleaving.",
          "DecodedCount is left open for unknown-template and zero-sample datagrams (statement ambiguous).", "7 C13"),
+ "C04": ("exploration", "deterministic simulation of the template caches through their exported API: sequential histories against an exact map model and concurrent histories checked per key with porcupine; adversarial FNV-1-colliding keys found by birthday search",
+         "Seeded histories of announcements, re-announcements with a different definition (different elements, or the same elements with other lengths) and data/peer/dump reads from several exporters over shared ids, run by 1..6 tasks under the seeded scheduler; every read must observe the latest announcement of exactly that exporter/id in some linearization, unknown otherwise; colliding (exporter,id) pairs are generated on purpose.",
+         "The hash-collision weakness is a recorded KNOWN finding (KNOWN_FINDINGS); any other violation still fails the check. Templates fetched through the RPC client loop are not exercised (DESIGN.md 10).", "7 C04"),
+ "C09": ("fault_enumeration", "metamorphic checks on the real decoder under the simulator: insertion of undecodable sets at set boundaries; truncation (transport fault) enumerated over every octet offset",
+         "For seeded well-formed IPFIX/v9 messages: (a) inserting a reserved-id set, an unknown-template set or a data set over an element missing from the model at any set boundary leaves the other sets' records unchanged; (b) for every truncation offset 0..len (all offsets in thorough and in a quarter of quick runs) the records emitted are a prefix of the complete datagram's records.",
+         "Fault enumeration over the truncation point per message; messages themselves are sampled.", "7 C09"),
+ "C10": ("exploration", "deterministic simulation: N tasks decode/announce, dump and peer-get concurrently under the seeded scheduler (yields at every lock operation); porcupine per key; the same runs in a -race build with the scheduler's hand-offs hidden from the detector",
+         "2..7 tasks issue announcements, data decodes, Dump to the simulated disk and IRPC.Get over overlapping keys; oracles: no panic, every observed template is a complete announced version of that key, per-key linearizability (porcupine), every dump loads back, and in the race build zero race reports between cache-package operations (blindness canary checked at the start of every race worker).",
+         "Race reports are violations only when both sides are template-cache package code. The detector keeps a bounded history per word.", "7 C10"),
+ "C11": ("fault_enumeration", "simulated disk: crash-point enumeration over every prefix of the dumped file plus torn tails, byte- and structure-level corruptions, absent/empty/unreadable files; reload with the real GetCache and probe every saved key",
+         "Caches built by decoding seeded template messages (plain/options/enterprise, re-announcements) are dumped; the intact file must round-trip (every saved key decodes byte-identically); every prefix (all in thorough, boundaries + 60 samples in quick), torn tails, flips, deletions, insertions and 19 structural edits must load without panic into a usable cache in which saved keys decode as before or are unknown.",
+         "Hand-edited templates are by construction not in the saved cache: for those only no-panic and usability are required.", "7 C11"),
+ "C14": ("exploration", "deterministic simulation of the real Producer/RawSocket over a simulated TCP/UDP sink with a seeded fault script (reset/close/torn write at byte offsets inside the stream, dead-accept, downtime, refused dials); oracle = sink stream model with bounded-liveness",
+         "1..500 unique messages (JSON text, '%' sequences, multi-kilobyte lines, arbitrary octets) handed to the real producer; what the sink received, connection by connection, must be an in-order, duplicate-free, byte-identical, newline-terminated subsequence; an unterminated tail only on a broken connection and only as a prefix of a handed message; once the sink is reachable again at most deadAccept+3 messages per failure may be missing.",
+         "Raw-socket backend only: Kafka/NSQ/NATS clients need brokers and are not simulated.", "7 C14"),
+ "C15": ("exploration", "deterministic simulation of the real main(): seeded traffic, SIGTERM/SIGINT at drawn simulated instants (also during boot, at delivery instants and around the end of the shutdown sleep), bounded stalls, restart on the same simulated disk; plus a -race build batch",
+         "Oracles: main returns with status 0 within 5 simulated seconds of the signal, no task panics, both cache files are valid JSON with the right shard number, and after the restart data for every template acknowledged (quiescence-stamped) before the signal decodes and is published exactly as the wire model says, over 2..3 stop/start cycles; in the race build a template-cache dump racing a worker is a violation.",
+         "Stalls are bounded by D_max = 50 ms (20 times below vFlow's 1 s guard); boot-versus-shutdown formal races are notes, not violations.", "7 C15"),
+ "C17": ("exploration", "simulated boots of the real GetOptions / main() with per-boot environment, argv and configuration file on the simulated disk (incl. absent/unreadable/empty file, -config path); precedence model over all 8 source subsets",
+         "For every yaml-tagged setting of kind int/string/bool (key table and flag names discovered by reflection on the running binary) and every subset of {environment, file, command line} with pairwise different values: effective value = flag > file > env > default, read from the options the collector uses and, for ports/workers/enable switches/stats port, from its behaviour (bound simulated sockets, /flow stats, HTTP listen address).",
+         "Configuration-only property: the simulator contributes the virtualised boot and the disk faults, no schedule dimension.", "7 C17"),
+ "C20": ("exploration", "two simulated boots (shipped ipfix.elements installed / absent) through the real LoadExtElements + exhaustive element sweep through the pipeline; state invariant + wire model + differential between boots",
+         "After each boot every information-model entry must be keyed by its own id and carry the snapshot's name and abstract type; templates covering all 402 elements with type-separating values are decoded in both boots: published messages must equal the model and be byte-identical between boots. Exhaustive over elements in every run.",
+         "The registry snapshot is frozen from the pinned commit: an error common to both tables at that commit is invisible.", "7 C20"),
+ "C16": ("exploration", "deterministic simulation of the whole pipeline with mirroring on; the raw socket is simulated at the syscall seam, so the real mirror package builds every packet; packet model + multiset matching",
+         "For every received IPFIX/sFlow datagram from an IPv4 exporter (4-byte and 16-byte form), payload lengths up to and including max-udp-size (600..65507), mirror queue capacities 1..1000: exactly one IPv4/UDP packet with consistent lengths, protocol 17, exporter source, configured target/port, identical payload; no panic.",
+         "IPv4 targets only; IPv6 exporters are outside the statement.", "7 C16"),
  "C18": ("exploration", "deterministic simulation of the whole pipeline with sflow-type-filter drawn per boot; oracle = sFlow wire model minus the filtered sample types",
          "C07 workload with filters (flow, counter, unknown types, several) passed on the command line of the simulated boot; published output must equal the model with exactly the listed sample types removed.", "", "7 C18"),
 }
